@@ -18,7 +18,7 @@ Definition region_key (g : rgsite) : string * Z := (g_func g, g_ord g).
 Definition has_region (c : csite) : bool :=
   existsb (fun g => streq (g_func g) (c_func c) && (Z.eqb (g_ord g) (c_ord c)) && streq (g_file g) (c_file c)) T_regions.
 (* evaluation sites whose results are collected in a list and committed by a later loop (init.run_in_parallel):
-   listed in known_findings.json (F13/F25); every other site must have a region *)
+   their point numbers are captured with the evaluation (C03_deferred_point_numbers_coherent); every other site must have a region *)
 Definition deferred_sites : list csite := filter (fun c => negb (has_region c)) (calls_of T_calls "evaluate_objective").
 Definition deferred_known (c : csite) : bool :=
   existsb (fun g => match snd g with
